@@ -225,6 +225,7 @@ judge(frun_t *r, const kobs_t *o, int open_rc, const char *ending) {
     return;
   }
   for (i = 0; i < r->nacks; i++) {
+    if (r->acks[i].empty) continue;
     all |= 1u << i;
     if (r->acks[i].status == LDB_OK)
       ok_mask |= 1u << i;
